@@ -170,7 +170,7 @@ Reject ==
        \/ \E r \in 1..MaxDim, c \in 1..MaxDim :
              /\ ~EnReshape(regs[a], r, c)
              /\ Ask("reshape", a, 0, <<r, c>>, <<>>, <<>>)
-       \/ /\ DotDefined(regs[a], regs[b]) /\ ~SameShape(regs[a], regs[b])
+       \/ /\ DotDefined(regs[a], regs[b]) /\ ~EnDotM(regs[a], regs[b])
           /\ Ask("dot", a, b, <<>>, <<>>, <<>>)
 
 QueryM ==
@@ -188,7 +188,7 @@ QueryM ==
                       /\ (op # "eq" => SameShape(A, regs[b]))
                       /\ Ask(op, a, b, <<>>, <<>>, <<>>)
                 \/ \E eps \in {0, 1} : Ask("approximate_eq", a, b, <<eps>>, <<>>, <<>>)
-                \/ DotDefined(A, regs[b]) /\ SameShape(A, regs[b]) /\ Ask("dot", a, b, <<>>, <<>>, <<>>)
+                \/ EnDotM(A, regs[b]) /\ Ask("dot", a, b, <<>>, <<>>, <<>>)
 
 QueryV ==
     \E a \in RegsV :
@@ -394,6 +394,8 @@ Law2(A, B) ==
     /\ EnVStack(A, B) =>
           /\ Slice(VStack(A, B), 1, A.r, 1, A.c) = A
           /\ Slice(VStack(A, B), A.r + 1, A.r + B.r, 1, A.c) = B
+    /\ EnDotM(A, B) => /\ Dot(A, B) = Dot(Transpose(A), B) /\ Dot(A, B) = Dot(A, Transpose(B))   \* any orientation
+                       /\ Dot(A, B) = Dot(B, A)
     /\ (EnDotM(A, B) /\ SameShape(A, B)) =>
           /\ Dot(A, B) = Dot(B, A)
           /\ Dot(A, B) = Sum(Mul(A, B))
